@@ -42,7 +42,7 @@ EXTRACTORS = {"FormConsts": form_consts}
 
 # ------------------------------------------------------------------------------------------------------------------
 # Coverage side condition: every hand-written `StructuralWritable` / `RecognizerReadable` impl of swimos_form must be
-# exercised by at least one entry of the harness battery (registry of harness/core/src/bin/sv-c16.rs). A new impl in the
+# exercised by at least one entry of the harness battery (registry of harness/form/src/bin/sv-c16.rs). A new impl in the
 # source that is not listed here, or a listed battery entry that no longer exists, fails the extraction (= the check).
 IMPL_COVERAGE = {
     # write side: `impl .. StructuralWritable for <X>`
@@ -105,7 +105,7 @@ def form_impls():
     if gone:
         raise ExtractError("impls listed in IMPL_COVERAGE no longer in the source: " + ", ".join(gone))
     here = os.path.dirname(os.path.abspath(__file__))
-    harness = open(os.path.join(here, "..", "..", "harness", "core", "src", "bin", "sv-c16.rs"), encoding="utf-8").read()
+    harness = open(os.path.join(here, "..", "..", "harness", "form", "src", "bin", "sv-c16.rs"), encoding="utf-8").read()
     reg = set(re.findall(r'"(\w+)" => ', harness))
     missing = sorted({n for ns in IMPL_COVERAGE.values() for n in ns if n.split(":")[-1] not in reg})
     if missing:
